@@ -17,7 +17,7 @@ Lemma tick_quiet w : quiet w -> tick w = (false, w).
 Proof. intros [F _]. unfold tick. rewrite F. reflexivity. Qed.
 
 Lemma effect_quiet w g : quiet w -> wfs (effect w g) = g (wfs w) /\ same_env w (effect w g).
-Proof. intros [F K]. unfold effect, alive. rewrite K. cbn. repeat split; auto. Qed.
+Proof. intros [F K]. unfold effect, kill_step. rewrite K. cbn. repeat split; auto. Qed.
 
 Lemma set_fs_env w f : quiet w -> wfs (set_fs w f) = f /\ same_env w (set_fs w f).
 Proof. intros [F K]. cbn. repeat split; auto. Qed.
